@@ -5,6 +5,7 @@
 //! Input line:  <max> <both|http|ws> <op>.<i>.<hint> ...
 //!   ops  ho hb hr ha hf hx hg   HTTP: open (head + body minus one byte) / last body byte / let the handler go /
 //!                               reset / FIN-close / let go and reset at once / complete GET
+//!        hu (4th field k) burst of k opens on k streams, answer = b<number of 429s>, then all reset
 //!        wo wb we wc wr wl wa wf wg wx   WebSocket: open / bad handshake / reset right after the service call /
 //!                               call parked method / let calls go / close frame / reset / FIN-close / invalid frame /
 //!                               close frame and reset at once
@@ -258,7 +259,7 @@ impl Case {
 	}
 
 	/// Returns the status field of the step.
-	async fn step(&mut self, op: &str, i: u64, expect_resp: bool, want: Option<usize>) -> String {
+	async fn step(&mut self, op: &str, i: u64, expect_resp: bool, want: Option<usize>, k: u64) -> String {
 		let sh = self.shared.clone();
 		let avail_ok = || match (want, sh.avail()) {
 			(Some(w), Some(a)) => a == w,
@@ -344,6 +345,57 @@ impl Case {
 				}
 				None => none,
 			},
+			"hu" => {
+				// k requests written back to back on k streams: the server's worker threads race for the slots
+				let avail0 = sh.avail();
+				let mut streams = Vec::new();
+				for _ in 0..k {
+					let Some(s) = self.connect().await else { return timeout };
+					streams.push((s, Vec::new(), None::<u16>));
+				}
+				for (j, (s, _, _)) in streams.iter_mut().enumerate() {
+					let req = post("park", i + j as u64);
+					if s.write_all(&req[..req.len() - 1]).await.is_err() {
+						return "EOF".into();
+					}
+				}
+				let t0 = Instant::now();
+				let mut tmp = [0u8; 2048];
+				let done = loop {
+					let mut answered = 0u64;
+					for (s, buf, st) in streams.iter_mut() {
+						if st.is_none() {
+							while let Ok(n) = s.try_read(&mut tmp) {
+								if n == 0 {
+									break;
+								}
+								buf.extend_from_slice(&tmp[..n]);
+							}
+							*st = find_head(buf);
+						}
+						if st.is_some() {
+							answered += 1;
+						}
+					}
+					// every request is either answered or holds a slot
+					let parked = match (avail0, sh.avail()) {
+						(Some(a0), Some(a)) => a0.saturating_sub(a) as u64,
+						_ => 0,
+					};
+					if answered + parked == k {
+						break true;
+					}
+					if t0.elapsed() > WAIT {
+						break false;
+					}
+					tokio::time::sleep(Duration::from_millis(1)).await;
+				};
+				let refused = streams.iter().filter(|x| x.2 == Some(429)).count();
+				for (s, _, _) in streams {
+					reset(s);
+				}
+				if done { format!("b{}", refused) } else { timeout }
+			}
 			"hg" => {
 				let Some(mut s) = self.connect().await else { return timeout };
 				if s.write_all(b"GET / HTTP/1.1\r\nHost: localhost\r\n\r\n").await.is_err() {
@@ -515,7 +567,8 @@ async fn run_case(line: &str) -> String {
 		let hint = p.next().unwrap_or("a");
 		let expect_resp = hint.starts_with('s');
 		let want: Option<usize> = hint.get(1..).and_then(|x| x.parse().ok());
-		let status = case.step(op, i, expect_resp, want).await;
+		let k: u64 = p.next().and_then(|x| x.parse().ok()).unwrap_or(0);
+		let status = case.step(op, i, expect_resp, want, k).await;
 		// bounded wait for the slot counter (release after a peer reset is asynchronous)
 		let sh = shared.clone();
 		if let (Some(w), true) = (want, sh.avail().is_some()) {
